@@ -543,7 +543,7 @@ def run(ctx):
     seenr = set()
     reqs = []
     for r in c08.requests("quick"):
-        k = (r["kind"], r["dt"], r["per_channel"], bool(r.get("as_conv")), r["acc"] if r.get("as_conv") else "-")
+        k = (r["kind"], r["dt"], r["per_channel"], bool(r.get("as_conv")), r["acc"] if r.get("as_conv") else "-", bool(r.get("bias32")))
         if k not in seenr and r["depth"] in (8, 17):
             seenr.add(k)
             reqs.append(r)
@@ -552,7 +552,7 @@ def run(ctx):
         for req, probs in bad:
             probs = [p_ for p_ in probs if "multiplier" in p_ or "encode failed" in p_]
             if probs:
-                ctx.violation("scale-record|%s|%s|%s%s" % (req["kind"], req["dt"], "per-channel" if req["per_channel"] else "per-tensor", "|conv-as-fc" if req.get("as_conv") else ""),
+                ctx.violation("scale-record|%s|%s|%s%s" % (req["kind"], req["dt"] + ("+bias32" if req.get("bias32") else ""), "per-channel" if req["per_channel"] else "per-tensor", "|conv-as-fc" if req.get("as_conv") else ""),
                               "%s  [%s]" % (probs[0], {k_: req[k_] for k_ in ("kind", "dt", "per_channel", "acc", "depth")}), dict(kind="scale_record", req=req))
     # float64: every exponent
     sh64 = [(e, min(e + 64, 2047)) for e in range(1, 2047, 64)]
